@@ -313,6 +313,7 @@ func C20(c *Ctx) {
 	c.unsafeUse()
 	c.globalShare()
 	c.capturedShare()
+	c.handlerReceiverWrites()
 	c.goArgs()
 	c.singleWrite()
 	c.registriesInitOnly()
@@ -886,4 +887,56 @@ func (c *Ctx) capturedShare() {
 		}
 	}
 	r.Extra["captured_collections"] = n
+}
+
+// handlerReceiverWrites: a request handler that is a method of a pointer
+// receiver (the closure of a middleware turned into a small struct) is one
+// value serving every request: a field of the receiver written while serving
+// (a per-request logger, user, counter kept "for the helper methods") is
+// written by concurrent requests without synchronisation, and read by the
+// wrong one. Per-request values belong in locals or in the request context.
+// Types that are themselves created per request (they hold the request's
+// ResponseWriter) are exempt.
+func (c *Ctx) handlerReceiverWrites() {
+	r := c.R
+	n := 0
+	for _, fn := range c.P.Funcs {
+		if strings.HasSuffix(pkgOf(fn), "/mocks") || fn.Signature.Recv() == nil || len(fn.Params) == 0 || !hasRequestParams(fn) {
+			continue
+		}
+		recv := fn.Params[0]
+		pt, isPtr := recv.Type().Underlying().(*types.Pointer)
+		if !isPtr {
+			continue
+		}
+		st, isStruct := pt.Elem().Underlying().(*types.Struct)
+		if !isStruct {
+			continue
+		}
+		perRequest := false
+		for i := 0; i < st.NumFields(); i++ {
+			if ft := st.Field(i).Type().String(); strings.HasSuffix(ft, "http.ResponseWriter") || strings.HasSuffix(ft, "*net/http.Request") {
+				perRequest = true
+			}
+		}
+		if perRequest {
+			continue
+		}
+		n++
+		name := FuncName(fn)
+		for _, b := range fn.Blocks {
+			for _, in := range b.Instrs {
+				store, ok := in.(*ssa.Store)
+				if !ok {
+					continue
+				}
+				fa, ok := store.Addr.(*ssa.FieldAddr)
+				if !ok || fa.X != ssa.Value(recv) {
+					continue
+				}
+				r.Bad("C20.handler-field", name, "receiver."+fieldName(fa)+" = …", posf(c, store), "the handler writes a field of its receiver while serving a request; the receiver is one value shared by all requests through this handler, so concurrent requests race on the field and may read each other's value")
+			}
+		}
+	}
+	r.Extra["pointer_receiver_handlers"] = n
 }
